@@ -302,6 +302,7 @@ type BookOpts struct {
 	RecipeNames []string
 	BasicNames  []string
 	NoEmpty     bool
+	Wide        bool // recipes with dozens of ingredients (more than 32 distinct elements)
 	NoRepeat    bool // no repeated ingredient inside a recipe
 	NoZero      bool
 }
@@ -379,6 +380,9 @@ func RandomBook(r *rand.Rand, o BookOpts) Book {
 			add(rn[below[r.Intn(len(below))]], inner())
 		}
 		k := 1 + r.Intn(4)
+		if o.Wide && r.Intn(2) == 0 {
+			k = 25 + r.Intn(35)
+		}
 		for j := 0; j < k; j++ {
 			if l > 1 && r.Intn(2) == 0 {
 				// any recipe of a lower layer (sharing / diamonds)
